@@ -134,7 +134,22 @@ func (it *RangeIterator) M__next__() (Object, error) {
 	if it.Step < 0 && r <= it.Stop {
 		return nil, StopIteration
 	}
-	it.Index += it.Step
+	// Advance without wrapping round the ends of the word range:
+	// if the next value would reach or pass Stop the iterator
+	// is exhausted (the distances are exact as unsigned words)
+	if it.Step > 0 {
+		if uint64(it.Stop)-uint64(r) <= uint64(it.Step) {
+			it.Index = it.Stop
+		} else {
+			it.Index += it.Step
+		}
+	} else {
+		if uint64(r)-uint64(it.Stop) <= -uint64(it.Step) {
+			it.Index = it.Stop
+		} else {
+			it.Index += it.Step
+		}
+	}
 	return r, nil
 }
 
